@@ -285,13 +285,16 @@ class Runner:
             # direct predecessors (only where every dependency is a plain cached cells, and none is handled)
             if not handled and all(sp.nodes[d.d].kind in "SPLDOK" for d in nd.deps):
                 want = {sp.label(d.d) for d in nd.deps}
-                got = {(n.obj.fullname, tuple(n.args)) for n in ns[space].cells["c%d" % j].preds(*key)
-                       if type(n).__name__ == "ItemNode" and n.obj.name not in ("deep", "deepu")}
+                try:
+                    got = {(n.obj.fullname, tuple(n.args)) for n in ns[space].cells["c%d" % j].preds(*key)
+                           if type(n).__name__ == "ItemNode" and n.obj.name not in ("deep", "deepu")}
+                except Exception as e:      # e.g. the held value is not a node of the dependency graph
+                    got = "preds() raised %s" % type(e).__name__
                 if got != want:
                     self.fail("chk-preds", "%s: recorded predecessors %r, its formula called %r"
-                              % (sp.label(j), sorted(got), sorted(want)),
-                              "got = {(n.obj.fullname, tuple(n.args)) for n in %s.cells['c%d'].preds(*%r) "
-                              "if n.obj.name not in ('deep', 'deepu')}\n"
+                              % (sp.label(j), got if isinstance(got, str) else sorted(got), sorted(want)),
+                              "try:\n    got = {(n.obj.fullname, tuple(n.args)) for n in %s.cells['c%d'].preds(*%r) "
+                              "if n.obj.name not in ('deep', 'deepu')}\nexcept Exception:\n    got = None\n"
                               "sys.exit(1 if got != %r else 0)" % (space, j, key, want))
             if foreign or missing:
                 self.fail("chk-refs", "%s: references recorded as read are %r; its formula read %r%s"
@@ -984,7 +987,7 @@ def run(res, tier, seed):
                  "{None,True,False}^(cells, space[, parent space]) x model {True,False}; R: chains of 1..3M elements "
                  "under limits M in %s for 5 chain kinds x innermost element ok/raising; X: sub-process chains of "
                  "depth %s") % ((4, "4-5", "{5,20}", "1000") if tier == "quick" else (5, "5-6", "{3,5,20,50}",
-                                                                                        "1000/10000/60000"))
+                                                                                        "1000/10000/60000/99000"))
     res.rule = ("A is the exhaustive product DAG x failure point x exception kind (quick: every second combination "
                 "at 4 cells); element kinds (scalar/parametrised/uncached/lambda/derived/other space/child space/"
                 "ItemSpace cells/ItemSpace node), call styles, raise site, position of the failure among the calls, "
